@@ -1281,6 +1281,106 @@ func (g *Gen) expand(pat string, v View) {
 		st = append(st, lit(Action{Op: "api", Kind: rapid.SampledFrom([]string{"restart", "start"}).Draw(t, "how"), Node: leader}), advance(g.dur("d3", et, 3*et)))
 		st = append(st, submitAt("leader", "write"), advance(g.dur("d4", 2*hb, et)))
 		g.push("P34", st...)
+	case "P35": // figure 8 proper: the cut-off leader holds an entry nobody has; a second node wins a term and appends at the same
+		// index but reaches nobody; the first is re-elected by the rest, loses the rest, and is left with the second node only
+		if leader == "" || len(g.C.others(leader)) < 2 {
+			g.push("P35", advance(et))
+			return
+		}
+		others := g.C.others(leader)
+		b := g.pick("second", others)
+		var rest []string
+		for _, o := range others {
+			if o != b {
+				rest = append(rest, o)
+			}
+		}
+		var st []step
+		st = append(st, lit(Action{Op: "isolate", Node: leader, Mode: "drop"}), submitAt(leader, "write"), advance(g.dur("d0", 1000, hb)))
+		for _, o := range rest {
+			for _, q := range g.C.Order {
+				if q != o {
+					st = append(st, lit(Action{Op: "link", Node: o, Node2: q, Mode: "noreq"}))
+				}
+			}
+			st = append(st, lit(Action{Op: "link", Node: b, Node2: o, Mode: "held"}))
+		}
+		for i := rapid.IntRange(8, 14).Draw(t, "rounds"); i > 0; i-- {
+			st = append(st, advance(et/4))
+			for _, o := range rest {
+				st = append(st, lit(Action{Op: "releaselink", Node: b, Node2: o, Kind: "RV", Mode: "deliver"}))
+			}
+		}
+		// whatever else the second node sent is lost; it is cut off
+		for _, o := range rest {
+			st = append(st, lit(Action{Op: "releaselink", Node: b, Node2: o, Mode: "drop"}))
+		}
+		st = append(st, lit(Action{Op: "isolate", Node: b, Mode: "drop"}))
+		// the first node finds the rest again, learns the newer term and is re-elected by them
+		for _, o := range rest {
+			st = append(st, lit(Action{Op: "link", Node: leader, Node2: o, Mode: "prompt"}), lit(Action{Op: "link", Node: o, Node2: leader, Mode: "noreq"}))
+		}
+		st = append(st, advance(g.dur("d1", 3*et, 5*et)))
+		// then it loses the rest and is left with the second node, which may not campaign
+		for _, o := range rest {
+			st = append(st, lit(Action{Op: "link", Node: leader, Node2: o, Mode: "drop"}), lit(Action{Op: "link", Node: o, Node2: leader, Mode: "drop"}))
+		}
+		st = append(st, lit(Action{Op: "link", Node: leader, Node2: b, Mode: "prompt"}), lit(Action{Op: "link", Node: b, Node2: leader, Mode: "noreq"}))
+		st = append(st, submitAt(leader, "write"), advance(g.dur("d2", 2*hb, et)), submitAt(leader, "write"), advance(g.dur("d3", hb, et)))
+		st = append(st, lit(Action{Op: "heal", Mode: "drop"}), advance(g.dur("d4", et, 3*et)))
+		g.push("P35", st...)
+	case "P36": // the acknowledgements of one entry are spread over several partitions: first one voter (then lost to a new leader),
+		// much later another one - the entry commits at the old leader while only that last voter is in contact
+		if leader == "" || len(g.C.others(leader)) < 3 {
+			g.push("P36", advance(et))
+			return
+		}
+		others := g.C.others(leader)
+		b := g.pick("early", others)
+		var rest []string
+		for _, o := range others {
+			if o != b {
+				rest = append(rest, o)
+			}
+		}
+		c := g.pick("late", rest)
+		var st []step
+		// {leader, b} | {c} | {the others}
+		st = append(st, lit(Action{Op: "isolate", Node: c, Mode: "drop"}))
+		for _, o := range rest {
+			if o != c {
+				st = append(st, lit(Action{Op: "link", Node: leader, Node2: o, Mode: "drop"}), lit(Action{Op: "link", Node: o, Node2: leader, Mode: "drop"}))
+				st = append(st, lit(Action{Op: "link", Node: b, Node2: o, Mode: "drop"}), lit(Action{Op: "link", Node: o, Node2: b, Mode: "drop"}))
+			}
+		}
+		st = append(st, func(g *Gen, v View) (Action, bool) {
+			return Action{Op: "submit", Node: leader, Kind: "write", Client: g.nextClient(), Timeout: 30000}, true
+		}, advance(g.dur("d0", 2*hb, et/2)))
+		// {leader} | {c} | {b and the others}: they elect a new leader and acknowledge a write
+		st = append(st, lit(Action{Op: "link", Node: leader, Node2: b, Mode: "drop"}), lit(Action{Op: "link", Node: b, Node2: leader, Mode: "drop"}))
+		for _, o := range rest {
+			if o != c {
+				st = append(st, lit(Action{Op: "link", Node: b, Node2: o, Mode: "prompt"}), lit(Action{Op: "link", Node: o, Node2: b, Mode: "prompt"}))
+			}
+		}
+		st = append(st, advance(g.dur("d1", 2*et, 3*et, 4*et)))
+		st = append(st, func(g *Gen, v View) (Action, bool) {
+			id := newestLeaderExcept(v, leader)
+			if id == "" {
+				return Action{Op: "advance", DurUs: et}, true
+			}
+			return Action{Op: "submit", Node: id, Kind: "write", Client: g.nextClient(), Timeout: 2000}, true
+		}, advance(g.dur("d2", 2*hb, et/2)))
+		// {leader, c} | {b and the others}: c accepts the old entry
+		st = append(st, lit(Action{Op: "link", Node: leader, Node2: c, Mode: "prompt"}), lit(Action{Op: "link", Node: c, Node2: leader, Mode: "prompt"}))
+		for i := rapid.IntRange(3, 8).Draw(t, "slices"); i > 0; i-- {
+			st = append(st, advance(g.dur("slice", 2000, hb/2, hb)))
+			for _, k := range g.readKinds() {
+				st = append(st, lit(Action{Op: "submit", Node: leader, Kind: k, Client: g.nextClient(), Timeout: 200}))
+			}
+		}
+		st = append(st, advance(g.dur("d3", hb, et)), lit(Action{Op: "heal", Mode: "drop"}), advance(g.dur("d4", et, 2*et)))
+		g.push("P36", st...)
 	case "P10": // membership change under fault
 		g.push("P10", g.membershipSteps(v)...)
 	case "P11": // everything down, a strict majority (or everybody) comes back
